@@ -134,6 +134,26 @@ func cellAt(v *value, path []int) *value {
 }
 
 func (m *Machine) symLoad(p *SymRef) value {
+	// pointer-valued cells: build the guarded pointer set directly (guards idx==i are disjoint)
+	if len(p.base) > 0 {
+		if _, isPtr := (*cellAt(&p.base[0], p.path)).(*value); isPtr {
+			alts := make([]ptrAlt, 0, len(p.base))
+			allPtr := true
+			for i := range p.base {
+				q, ok := (*cellAt(&p.base[i], p.path)).(*value)
+				if !ok {
+					allPtr = false
+					break
+				}
+				alts = append(alts, ptrAlt{m.tt.Eq(p.idx, m.tt.Const(p.idx.W, uint64(i))), q})
+			}
+			if allPtr {
+				if r, ok := m.mkPtrSet(alts); ok {
+					return r
+				}
+			}
+		}
+	}
 	var res value
 	for i := len(p.base) - 1; i >= 0; i-- {
 		v := load(cellAt(&p.base[i], p.path))
@@ -265,6 +285,14 @@ func (m *Machine) binop(op token.Token, t types.Type, x, y value, ty types.Type)
 					}
 				}
 			}
+			// a symbolic shift amount has a tiny domain and makes every later term a barrel shifter:
+			// concretise it by forking over its feasible values
+			if !yv.IsConst() && !xv.IsConst() && !m.cfg.SymbolicShifts {
+				if m.spec > 0 {
+					panic(mergeAbort{})
+				}
+				yv = m.tt.Const(yv.W, m.concretize(yv))
+			}
 			// bring the amount to x's width, saturating
 			var amt *Term
 			if yv.W > xv.W {
@@ -334,6 +362,7 @@ func (m *Machine) binop(op token.Token, t types.Type, x, y value, ty types.Type)
 // ---------- conversions ----------
 
 func (m *Machine) conv(dst, src types.Type, x value) value {
+	x = m.resolveSlice(x)
 	ud, us := dst.Underlying(), src.Underlying()
 	// pointer / unsafe.Pointer conversions
 	if b, ok := ud.(*types.Basic); ok && b.Kind() == types.UnsafePointer {
@@ -407,7 +436,7 @@ func (m *Machine) conv(dst, src types.Type, x value) value {
 					if m.branch(ascii) {
 						return Str{B: []*Term{m.tt.Extract(xv, 7, 0)}}
 					}
-					panic(unsupported{"symbolic non-ASCII rune to string"})
+					return m.runeToStrSym(xv)
 				}
 				return Str{S: string(rune(xv.SVal()))}
 			}
@@ -480,13 +509,39 @@ func (m *Machine) conv(dst, src types.Type, x value) value {
 				return m.strNorm(Str{B: r})
 			}
 			// []rune -> string
+			allConst := true
+			for _, b := range xv {
+				if !b.(*Term).IsConst() {
+					allConst = false
+				}
+			}
+			if !allConst {
+				// symbolic runes: ASCII only (one byte each); concrete runes keep their UTF-8 encoding
+				var r []*Term
+				for _, b := range xv {
+					t := b.(*Term)
+					if t.IsConst() {
+						for _, c := range []byte(string(rune(t.SVal()))) {
+							r = append(r, m.tt.Const(8, uint64(c)))
+						}
+						continue
+					}
+					if m.spec > 0 {
+						panic(mergeAbort{})
+					}
+					if !m.branch(m.tt.Cmp("bvult", t, m.tt.Const(t.W, 0x80))) {
+						panic(unsupported{"symbolic non-ASCII []rune to string"})
+					}
+					r = append(r, m.tt.Extract(t, 7, 0))
+				}
+				if len(r) == 0 {
+					return Str{}
+				}
+				return m.strNorm(Str{B: r})
+			}
 			rs := make([]rune, len(xv))
 			for i, b := range xv {
-				t := b.(*Term)
-				if !t.IsConst() {
-					panic(unsupported{"symbolic []rune to string"})
-				}
-				rs[i] = rune(t.SVal())
+				rs[i] = rune(b.(*Term).SVal())
 			}
 			return Str{S: string(rs)}
 		}
@@ -574,6 +629,8 @@ func (fr *frame) indexAddr(instr *ssa.IndexAddr) value {
 	var cells []value
 	var path []int
 	switch x := x.(type) {
+	case *SliceSet:
+		return m.sliceSetIndexAddr(x, idx)
 	case []value:
 		cells = x
 	case *value: // *array
@@ -703,7 +760,7 @@ func (fr *frame) lookup(instr *ssa.Lookup) value {
 
 func (fr *frame) slice(instr *ssa.Slice) value {
 	m := fr.m
-	x := m.resolvePtr(fr.get(instr.X))
+	x := m.resolveSlice(m.resolvePtr(fr.get(instr.X)))
 	var lo, hi, max int = 0, -1, -1
 	if instr.Low != nil {
 		lo = m.concInt(fr.get(instr.Low))
@@ -969,6 +1026,23 @@ func (m *Machine) implements(t types.Type, it *types.Interface) bool {
 // ---------- builtins ----------
 
 func (m *Machine) callBuiltin(fn *ssa.Builtin, args []value) value {
+	// symbolic slices: len/cap are answered symbolically, everything else resolves by forking
+	if len(args) > 0 {
+		if ss, ok := args[0].(*SliceSet); ok {
+			switch fn.Name() {
+			case "len":
+				return m.sliceSetLen(ss, false)
+			case "cap":
+				return m.sliceSetLen(ss, true)
+			}
+		}
+	}
+	for i := range args {
+		switch args[i].(type) {
+		case *SliceSet:
+			args[i] = m.resolveSlice(args[i])
+		}
+	}
 	switch fn.Name() {
 	case "append":
 		if len(args) == 1 {
@@ -1229,7 +1303,7 @@ func zeroLike(m *Machine, v value) value {
 		return r
 	case *value, *PtrSet:
 		return (*value)(nil)
-	case []value:
+	case []value, *SliceSet:
 		return []value(nil)
 	case iface:
 		return iface{}
